@@ -57,7 +57,7 @@ type env struct {
 	ctx   *simrt.Ctx
 	prog  *sdl.Program
 	objs  map[string]any
-	ptrID map[uintptr]string
+	ptrID map[ptrKey]string
 	subs  map[string]any
 	hands map[string]*simrt.Handle
 	obs   *model.Obs
@@ -66,6 +66,15 @@ type env struct {
 	// initLookups: holder -> "@init:<target id>" -> what the lookup from inside Init returned
 	initLookups map[string]map[string][]string
 }
+
+// ptrKey identifies an object by type and address (distinct zero-size components may share
+// one address).
+type ptrKey struct {
+	t reflect.Type
+	p uintptr
+}
+
+func keyOf(v reflect.Value) ptrKey { return ptrKey{v.Type(), v.Pointer()} }
 
 func rw(v reflect.Value) reflect.Value {
 	if !v.IsValid() {
@@ -100,7 +109,7 @@ func (e *env) idOf(v reflect.Value) string {
 		if v.IsNil() {
 			return ""
 		}
-		if id, ok := e.ptrID[v.Pointer()]; ok {
+		if id, ok := e.ptrID[keyOf(v)]; ok {
 			return id
 		}
 		return "?" + v.Type().String()
@@ -163,8 +172,12 @@ func (e *env) newObject(typeName string, h *simrt.Handle) any {
 		panic("engine: unknown generated type " + typeName)
 	}
 	v := reflect.New(typ)
-	v.Elem().FieldByName("Sim").Set(reflect.ValueOf(h))
 	t := e.prog.TypeByName(typeName)
+	if t.Zero {
+		e.ptrID[keyOf(v)] = h.ID
+		return v.Interface()
+	}
+	v.Elem().FieldByName("Sim").Set(reflect.ValueOf(h))
 	for _, fr := range t.Frame {
 		for _, f := range e.frameLeaves(v.Interface(), t, fr) {
 			switch f.Kind() {
@@ -181,7 +194,7 @@ func (e *env) newObject(typeName string, h *simrt.Handle) any {
 			f.SetInt(sentinelInt)
 		}
 	}
-	e.ptrID[v.Pointer()] = h.ID
+	e.ptrID[keyOf(v)] = h.ID
 	e.hands[h.ID] = h
 	return v.Interface()
 }
@@ -207,6 +220,9 @@ func (e *env) checkFrame(id string) []string {
 	t := e.prog.TypeByName(inst.Type)
 	obj := e.objs[id]
 	var bad []string
+	if t.Zero {
+		return nil
+	}
 	if h := reflect.ValueOf(obj).Elem().FieldByName("Sim"); h.IsNil() || h.Interface().(*simrt.Handle) != e.hands[id] {
 		bad = append(bad, id+".Sim (untagged handle) was modified")
 	}
@@ -366,7 +382,7 @@ func Run(t *testing.T, bind *Binding, spec *RunSpec) *model.Obs {
 	for _, f := range spec.Faults {
 		ctx.Armed[f] = true
 	}
-	e := &env{spec: spec, bind: bind, ctx: ctx, prog: spec.Prog, objs: map[string]any{}, ptrID: map[uintptr]string{},
+	e := &env{spec: spec, bind: bind, ctx: ctx, prog: spec.Prog, objs: map[string]any{}, ptrID: map[ptrKey]string{},
 		subs: map[string]any{}, hands: map[string]*simrt.Handle{}, obs: obs, names: map[string]string{}, scans: map[string]*simrt.TagScanner{}, initLookups: map[string]map[string][]string{}}
 	syslog.SetLogger(simrt.SilentLogger{})
 
@@ -463,7 +479,7 @@ func (e *env) main(inClose, closeReturned *bool) {
 	app.VerifCloseYield = func(m definition.CloserComponent) {
 		id := "?"
 		if v := reflect.ValueOf(m); v.Kind() == reflect.Pointer {
-			if x, ok := e.ptrID[v.Pointer()]; ok {
+			if x, ok := e.ptrID[keyOf(v)]; ok {
 				id = x
 			}
 		}
@@ -572,7 +588,7 @@ func (e *env) main(inClose, closeReturned *bool) {
 			if v.Kind() != reflect.Pointer {
 				return
 			}
-			id, ok := e.ptrID[v.Pointer()]
+			id, ok := e.ptrID[keyOf(v)]
 			if !ok || e.prog.InstByID(id) == nil {
 				return
 			}
